@@ -79,6 +79,31 @@ ARGPOS_OK = {
 }
 
 
+_UNUSED_OK = None
+
+
+def _unused_ok():
+    """Parameters that are accepted but not read on the pinned tree (122 of 7354): callback/plugin
+    signatures, dispatch interfaces, deprecated or reserved options.  They are the baseline, not findings;
+    a parameter that STOPS being read (a forwarding that was dropped) is what the rule reports."""
+    global _UNUSED_OK
+    if _UNUSED_OK is None:
+        with open(os.path.join(os.path.dirname(os.path.abspath(__file__)), "unused_params_ok.json")) as f:
+            _UNUSED_OK = {tuple(x) for x in json.load(f)}
+    return _UNUSED_OK
+
+
+def _trivial_body(f):
+    body = [s_ for s_ in f.body if not (isinstance(s_, ast.Expr) and isinstance(s_.value, ast.Constant))]
+    if not body:
+        return True
+    if len(body) == 1 and isinstance(body[0], (ast.Pass, ast.Raise)):
+        return True
+    if len(body) == 1 and isinstance(body[0], ast.Return) and (body[0].value is None or isinstance(body[0].value, ast.Constant)):
+        return True
+    return False
+
+
 def _side_tokens(node):
     import re
 
@@ -183,6 +208,51 @@ def check(ctx):
                         False,
                         f"`{minority[0]}` belongs to the other side, and the function contains the mirror image `{_mirror(fixed)[:70]}` of the corrected call: one input is processed with the other input's key/flag",
                     )
+    # ---------------- PARAM.used: an option that a function accepts is read by it
+    okset = _unused_ok()
+    n_par = 0
+    for rel in anchor_files(ctx.prop):
+        if not model.exists(rel):
+            continue
+        mod = model.module(rel)
+        for qn, f in mod.functions():
+            if _trivial_body(f) or any("abstractmethod" in unparse(d) or "overload" in unparse(d) for d in f.decorator_list):
+                continue
+            if any(isinstance(c, ast.Call) and isinstance(c.func, ast.Name) and c.func.id in ("locals", "vars") for c in ast.walk(f)):
+                continue
+            used = {x.id for x in ast.walk(f) if isinstance(x, ast.Name)}
+            for a in f.args.posonlyargs + f.args.args + f.args.kwonlyargs:
+                p_ = a.arg
+                if p_ in ("self", "cls") or p_.startswith("_"):
+                    continue
+                n_par += 1
+                if p_ not in used and (rel, qn, p_) not in okset:
+                    ctx.ob("PARAM.used", f, f"{qn}: parameter `{p_}` is read", False, f"`{p_}` is accepted but never used: the option (or the value a caller forwards) is silently ignored")
+    ctx.count("parameters_checked", n_par)
+    # ---------------- TRUTH.slice-bound: None means "open end"; 0 is a real bound.  The only truthiness idioms
+    # over slice bounds in the package are `s.start or 0`, `s.step or 1` and `s.step and s.step < 0`, where
+    # 0 and None mean the same.  `.stop` is never truth-tested: slice(0, 0) is the empty slice, not an open one.
+    for rel in anchor_files(ctx.prop):
+        if not model.exists(rel):
+            continue
+        mod = model.module(rel)
+        for node in ast.walk(mod.tree):
+            tests = []
+            if isinstance(node, (ast.If, ast.While, ast.IfExp)):
+                tests.append(node.test)
+            if isinstance(node, ast.BoolOp):
+                tests.extend(node.values[:-1] if isinstance(node.op, ast.Or) else node.values)
+            if isinstance(node, ast.UnaryOp) and isinstance(node.op, ast.Not):
+                tests.append(node.operand)
+            for t in tests:
+                if not (isinstance(t, ast.Attribute) and t.attr in ("start", "stop", "step")):
+                    continue
+                u = unparse(node)
+                base = unparse(t)
+                okay = (t.attr == "start" and isinstance(node, ast.BoolOp) and isinstance(node.op, ast.Or) and u == f"{base} or 0") or (
+                    t.attr == "step" and isinstance(node, ast.BoolOp) and (u == f"{base} or 1" or (isinstance(node.op, ast.And) and f"{base} < 0" in u))
+                )
+                ctx.ob("TRUTH.slice-bound", node, f"`{u[:60]}`: a slice bound is compared with None (0 is a real bound)", okay, "" if okay else f"`{base}` is tested for truthiness: a bound of 0 (e.g. the empty slice [:0]) is treated like an open end", nontrivial=not okay)
     # ---------------- ARGPOS.named-call
     n_calls = 0
     for rel in anchor_files(ctx.prop):
